@@ -282,8 +282,110 @@ class Comp2Loop(ast.NodeTransformer):
     visit_AsyncFunctionDef = _fn
 
 
+def _simple(e):
+    """side-effect free operand: names, constants, attribute chains of names, len(<simple>)"""
+    if isinstance(e, (ast.Name, ast.Constant)):
+        return True
+    if isinstance(e, ast.Attribute):
+        return _simple(e.value)
+    return False
+
+
+class CmpFlip(ast.NodeTransformer):
+    """a == b -> b == a, a < b -> b > a ... for side-effect free operands (single comparison)"""
+    SWAP = {ast.Eq: ast.Eq, ast.NotEq: ast.NotEq, ast.Lt: ast.Gt, ast.Gt: ast.Lt, ast.LtE: ast.GtE, ast.GtE: ast.LtE, ast.Is: ast.Is, ast.IsNot: ast.IsNot}
+
+    def visit_Compare(self, node):
+        self.generic_visit(node)
+        if len(node.ops) == 1 and type(node.ops[0]) in self.SWAP and _simple(node.left) and _simple(node.comparators[0]) \
+                and not (isinstance(node.comparators[0], ast.Constant) and node.comparators[0].value is None):
+            return ast.Compare(left=node.comparators[0], ops=[self.SWAP[type(node.ops[0])]()], comparators=[node.left])
+        return node
+
+
+class NotForm(ast.NodeTransformer):
+    """a not in b -> not (a in b); a is not b -> not (a is b)"""
+
+    def visit_Compare(self, node):
+        self.generic_visit(node)
+        if len(node.ops) == 1 and isinstance(node.ops[0], (ast.NotIn, ast.IsNot)):
+            op = ast.In() if isinstance(node.ops[0], ast.NotIn) else ast.Is()
+            return ast.UnaryOp(op=ast.Not(), operand=ast.Compare(left=node.left, ops=[op], comparators=node.comparators))
+        return node
+
+
+class Lambda2Def(_Blocks):
+    """x = f(lambda a: e, ...) / plain statements using a lambda without free loop-variable capture problems:
+    the lambda is replaced by a named nested function defined immediately before the statement (same closure scope)."""
+
+    def __init__(self):
+        self.n = 0
+
+    def block(self, stmts, owner, fld):
+        if isinstance(owner, (ast.ClassDef, ast.Module)):
+            return stmts
+        out = []
+        for s in stmts:
+            if isinstance(s, (ast.Expr, ast.Assign, ast.Return, ast.AugAssign, ast.AnnAssign)):
+                lams = []
+                for n in ast.walk(s):
+                    if isinstance(n, ast.Lambda):
+                        lams.append(n)
+                # only lambdas that are not nested in comprehensions / other lambdas (their free variables would change scope)
+                safe = []
+                for lam in lams:
+                    par_ok = True
+                    for n in ast.walk(s):
+                        if isinstance(n, (ast.ListComp, ast.SetComp, ast.DictComp, ast.GeneratorExp, ast.Lambda)) and n is not lam and lam in ast.walk(n):
+                            par_ok = False
+                    if par_ok and not any(isinstance(x, (ast.Yield, ast.YieldFrom, ast.Await, ast.NamedExpr)) for x in ast.walk(lam)):
+                        safe.append(lam)
+                for lam in safe:
+                    self.n += 1
+                    name = f"_sf_fn{self.n}"
+                    out.append(ast.FunctionDef(name=name, args=lam.args, body=[ast.Return(value=lam.body)], decorator_list=[], returns=None, type_comment=None, type_params=[], lineno=0))
+
+                    class R(ast.NodeTransformer):
+                        def visit_Lambda(self, node, lam=lam, name=name):
+                            return ast.Name(id=name, ctx=ast.Load()) if node is lam else self.generic_visit(node)
+
+                    s = R().visit(s)
+            out.append(s)
+        return out
+
+
+class Fmt2F(ast.NodeTransformer):
+    """'..{}..{}'.format(a, b) -> f'..{a}..{b}' for constant templates with plain positional `{}` fields only"""
+
+    def visit_Call(self, node):
+        self.generic_visit(node)
+        f = node.func
+        if isinstance(f, ast.Attribute) and f.attr == "format" and isinstance(f.value, ast.Constant) and isinstance(f.value.value, str) \
+                and not node.keywords and node.args and not any(isinstance(a, ast.Starred) for a in node.args):
+            tpl = f.value.value
+            import string
+            try:
+                parts = list(string.Formatter().parse(tpl))
+            except ValueError:
+                return node
+            if sum(1 for _l, fld, _s, _c in parts if fld is not None) != len(node.args):
+                return node
+            if any(fld not in (None, "") or spec or conv for _l, fld, spec, conv in parts):
+                return node
+            vals, i = [], 0
+            for lit, fld, _spec, _conv in parts:
+                if lit:
+                    vals.append(ast.Constant(value=lit))
+                if fld is not None:
+                    vals.append(ast.FormattedValue(value=node.args[i], conversion=-1, format_spec=None))
+                    i += 1
+            return ast.JoinedStr(values=vals)
+        return node
+
+
 KINDS = {"rename": Renamer, "pad": Padder, "ifswap": IfSwap, "guard": Guard, "tempret": TempRet, "mergeif": MergeIf, "splitif": SplitIf,
-         "elsedrop": ElseDrop, "walrusout": WalrusOut, "comp2loop": Comp2Loop}
+         "elsedrop": ElseDrop, "walrusout": WalrusOut, "comp2loop": Comp2Loop, "cmpflip": CmpFlip, "notform": NotForm,
+         "lambda2def": Lambda2Def, "fmt2f": Fmt2F}
 
 
 def variant_source(src, kind):
